@@ -15,6 +15,7 @@ sequences over the statements the Mongo compiler supports, marks defined before 
 compiler and core.NewCompiler(nil) must both accept/reject, type the result and type the marks
 exactly as the specification does."""
 import json
+from concurrent.futures import ThreadPoolExecutor
 from vlib import Inconclusive
 
 ORDERING = {"gt", "gte", "lt", "lte", "inside", "outside", "between"}
@@ -79,7 +80,7 @@ def ops_of(prog):
 
 
 # ------------------------------------------------------------------------------------- filters
-def filter_half(ctx):
+def filter_half(ctx, build):
     cfg = "MongoGrid_quick.cfg" if ctx.tier == "quick" else "MongoGrid_thorough.cfg"
     res = ctx.tlc("mongofilter", "MongoGrid", cfg, workers=8, timeout=900, label="has() grid with HasSem keep sets")
     docs = res.msgs["docs"][0]
@@ -90,6 +91,7 @@ def filter_half(ctx):
     lines = [dict(i=0, mode="docs", docs=docs)] + [dict(i=i + 1, mode="has", e=c["e"], key=c["key"]) for i, c in enumerate(cases)]
     inp = ctx.write_ndjson("c14_has_in.ndjson", lines)
     outp = inp.replace("_in", "_out")
+    build.result()
     ctx.harness(["mongoc", "-j", "8"], input_path=inp, output_path=outp)
     out = {o["i"]: o for o in ctx.read_ndjson(outp) if "i" in o}
     if len(out) != len(lines):
@@ -225,12 +227,13 @@ def typing_sig(party, prog, want, got, pre_ty):
     return "%s typing mark-types after %s" % (party, op)
 
 
-def typing_half(ctx):
-    cfgs = ["MongoTyping_quick.cfg"] if ctx.tier == "quick" else ["MongoTyping_thorough.cfg"]
-    progs = []
-    for cfg in cfgs:
-        res = ctx.tlc("mongofilter", "MongoTyping", cfg, workers=8, timeout=1500, label="typing judgement over the supported statements")
-        progs += res.msgs.get("prog", [])
+def typing_gen(ctx):
+    cfg = "MongoTyping_quick.cfg" if ctx.tier == "quick" else "MongoTyping_thorough.cfg"
+    res = ctx.tlc("mongofilter", "MongoTyping", cfg, workers=8, timeout=1500, label="typing judgement over the supported statements")
+    return res.msgs.get("prog", [])
+
+
+def typing_half(ctx, progs):
     if not progs:
         raise Inconclusive("no programs emitted")
     for p in progs:
@@ -287,8 +290,19 @@ def typing_half(ctx):
 
 
 def run(ctx):
-    f = filter_half(ctx)
-    t = typing_half(ctx)
+    # the harness build and the generation of the typed programs do not depend on the filter half
+    with ThreadPoolExecutor(max_workers=2) as pool:
+        build = pool.submit(ctx.build_harness, "mongoc")
+        gen = pool.submit(typing_gen, ctx)
+        try:
+            f = filter_half(ctx, build)
+            t = typing_half(ctx, gen.result())
+        finally:
+            for fut in (build, gen):
+                try:
+                    fut.result()
+                except Exception:
+                    pass
     depth = 1 if ctx.tier == "quick" else 2
     plen = 2 if ctx.tier == "quick" else 3
     ctx.cov.update(evaluations=f["evaluated"] * f["ndocs"] + t["n"] * 2, distinct_nontrivial=f["nontrivial"] + t["accepted"],
